@@ -67,13 +67,41 @@ def _chunk_entry(args):
         faulthandler.cancel_dump_traceback_later()
 
 
-def _pin(k):
+def _cpu_order():
+    """The CPUs this process may use, idlest first (measured over 0.2 s from /proc/stat), so that
+    two checks running side by side do not pin their workers onto the same cores while others
+    idle.  Affects speed only: results never depend on where a worker runs."""
+    try:
+        cpus = sorted(os.sched_getaffinity(0))
+    except AttributeError:
+        return []
+
+    def snap():
+        busy = {}
+        with open('/proc/stat') as f:
+            for line in f:
+                if line.startswith('cpu') and line[3].isdigit():
+                    parts = line.split()
+                    vals = [int(x) for x in parts[1:]]
+                    idle = vals[3] + (vals[4] if len(vals) > 4 else 0)
+                    busy[int(parts[0][3:])] = sum(vals) - idle
+        return busy
+    try:
+        a = snap()
+        time.sleep(0.2)
+        b = snap()
+        return sorted(cpus, key=lambda c: (b.get(c, 0) - a.get(c, 0), c))
+    except (OSError, ValueError, IndexError):
+        return cpus
+
+
+def _pin(k, order=None):
     # one CPU per worker: the baton hand-off between a worker's threads is several times
     # cheaper when both threads stay on the same core
     if os.environ.get('VERIF_PIN', '1') != '1':
         return
     try:
-        cpus = sorted(os.sched_getaffinity(0))
+        cpus = order or sorted(os.sched_getaffinity(0))
         os.sched_setaffinity(0, {cpus[k % len(cpus)]})
     except (AttributeError, OSError):
         pass
@@ -108,13 +136,14 @@ def pmap(fn, items, jobs=None, chunk=8, wall_per_chunk=600, budget_s=None):
     pids = {}
     sys.stdout.flush()
     sys.stderr.flush()
+    order = _cpu_order() if os.environ.get('VERIF_PIN', '1') == '1' else None
     try:
         for w in range(jobs):
             pid = os.fork()
             if pid == 0:
                 code = 0
                 try:
-                    _pin(w)
+                    _pin(w, order)
                     with open(os.path.join(tmpdir, 'w%d' % w), 'wb') as f:
                         for ci in range(w, len(chunks), jobs):
                             if budget_s is not None and time.monotonic() - t0 > budget_s:
